@@ -76,7 +76,7 @@ fn thread_body(sh: Arc<Shared>, tid: u64, n_ops: usize, seed: u64, replay: serde
         }
         let hybrid = rng.chance(1, 2);
         let ap = if hybrid { &sh.fx.hybrid_ap } else { &sh.fx.classic_ap };
-        let op = rng.weighted(&[6, 8, 4, 4, 2, 2]);
+        let op = rng.weighted(&[6, 8, 4, 4, 2, 2, 2]);
         match op {
             0 => {
                 // encaps → queue
@@ -167,6 +167,31 @@ fn thread_body(sh: Arc<Shared>, tid: u64, n_ops: usize, seed: u64, replay: serde
                         my_usk = Some((u, true, hybrid));
                     }
                     o => fail(&sh, "keygen-fails", o.describe(), &replay),
+                }
+            }
+            6 => {
+                // re-encapsulation of a queued encapsulation with this thread's master key
+                let item = {
+                    let q = sh.queue.lock().unwrap();
+                    if q.is_empty() {
+                        None
+                    } else {
+                        Some(q[rng.below(q.len())].clone())
+                    }
+                };
+                let Some((e, s, h)) = item else { continue };
+                match call(|| cc.recaps(&msk, &sh.fx.mpk, &e)) {
+                    Out::Ok((s2, e2)) => {
+                        let sb = real::secret_bytes(&s2);
+                        if sb == s {
+                            fail(&sh, "recaps-returns-the-original-secret", String::new(), &replay);
+                        }
+                        fresh(&sh, "encapsulated secret", &sb, &replay);
+                        let mut q = sh.queue.lock().unwrap();
+                        q.push((e2, sb, h));
+                        st.bump("recaps");
+                    }
+                    o => fail(&sh, "recaps-fails", o.describe(), &replay),
                 }
             }
             _ => {
